@@ -42,6 +42,28 @@ impl G {
         s
     }
 
+    /// As `to_cfg`, with AST-control annotations that do not change the language: the j-th non-terminal occurrence is
+    /// clipped (`N^`) when bit j % 64 of `mask` is set.
+    pub fn to_cfg_annotated(&self, mask: u64) -> Cfg {
+        let mut cfg = Cfg::with_start_symbol(&self.names[self.start]);
+        let mut j = 0u32;
+        for (l, r) in &self.prods {
+            let rhs: Vec<Symbol> = r
+                .iter()
+                .map(|y| match y {
+                    Sy::T(t) => Symbol::T(Terminal::t(&term_text(*t), vec![0], SymbolAttribute::None)),
+                    Sy::N(a) => {
+                        let clip = (mask >> (j % 64)) & 1 == 1;
+                        j += 1;
+                        Symbol::N(self.names[*a].clone(), if clip { SymbolAttribute::Clipped } else { SymbolAttribute::None }, None, None)
+                    }
+                })
+                .collect();
+            cfg = cfg.add_pr(Pr::new(&self.names[*l], rhs));
+        }
+        cfg
+    }
+
     /// Build parol's `Cfg` directly (BNF level, no annotations).
     pub fn to_cfg(&self) -> Cfg {
         let mut cfg = Cfg::with_start_symbol(&self.names[self.start]);
